@@ -16,7 +16,7 @@ import (
 //	BigSeq     l0:[abc] l1:[abc] ... (66, 130 or 258 labelled items, one action over all labels)
 //	BigLit     one literal of 70, 300, 1100 or 4200 bytes (ignore-case every other time)
 //	BigClass   [ ... ]+ with 70, 140 or 300 member runes and 20 ranges
-//	BigChain   Ch000 = "a" Ch001 / "b" ; ... ; ChN = "b"  (70, 140 or 300 rules, entered to full depth)
+//	BigChain   Ch000 = "a" Ch001 / "b" ; ... ; ChN = "b"  (66 or 130 rules, entered to full depth)
 //	BigStar    ( "ab" / [0-9] / "\n" )* - an input of up to 9000 bytes, hundreds of lines, long lines
 //
 // Rule.Big marks them (and their wrappers): the input sampler lifts its size limits for them.
@@ -84,6 +84,11 @@ func (c *gen) bigRules() []*Rule {
 			e := &Expr{K: KPlus, Sub: []*Expr{cl}}
 			out = append(out, &Rule{Name: "BigClass", Expr: e, Big: k})
 		case "chain":
+			if size > 130 {
+				// (-optimize-grammar inlines a chain link by link and walks the whole grammar after
+				// every step: 23 s for 258 links, 6 s for 130)
+				size = 130
+			}
 			for j := 0; j < size; j++ {
 				name := fmt.Sprintf("Ch%03d", j)
 				var e *Expr
